@@ -2558,7 +2558,13 @@ def check_bytes_eq_delegates(ctx, f, rule, adt, what_for):
         bad = []
         for v in vals:
             txt = alpha(render(v), b)
-            ok = v[0] == "call" and re.match(r"^core::(slice|array)::.*PartialEq.*::eq$", v[1] or "") is not None and len(v[2]) == 2
+            info = v[3] if v[0] == "call" and len(v) > 3 and v[3] else {}
+            # core's equality of slices / arrays / references to them, however the operands are viewed (`a.as_ref().eq(b)`,
+            # `a.as_slice() == b.as_ref()`)
+            ok = v[0] == "call" and len(v[2]) == 2 and info.get("name") == "eq" and (info.get("krate") in ("core", "std", "alloc")) and \
+                (re.match(r"^core::(slice|array)::.*PartialEq.*::eq$", v[1] or "") is not None or
+                 (re.match(r"^(core|std)::cmp::impls::<impl (std|core)::cmp::PartialEq<&.*> for &.*>::eq$", v[1] or "") is not None
+                  and all(re.match(r"^&(mut )?\[u8(; \d+)?\]$", g or "") for g in (info.get("ga") or ("",)))))
             if ok:
                 a0, a1 = alpha(render(v[2][0]), b), alpha(render(v[2][1]), b)
                 ok = {root for root in (re.sub(r"^(?:[\w:]+\()*(self|%2).*$", r"\1", x) for x in (a0, a1))} == {"self", "%2"}
@@ -2583,6 +2589,9 @@ def check_serial_sign_guard(ctx, f, rule="R-GRD"):
     def sign_clear(rel, a, b_):
         if rel != "eq" or b_ is None:
             return None
+        consts = getattr(f, "consts", None)
+        if consts is not None:
+            a, b_ = fold_consts(strip_deep(a), consts), fold_consts(strip_deep(b_), consts)     # `& 0x80` and `& SIGN_BIT`
         sa, sb = render(a), render(b_)
         for x, y in ((sa, sb), (sb, sa)):
             if y == "0" and re.match(r"^BitAnd\((self\.0\[0\], 128|128, self\.0\[0\])\)$", x):
@@ -2594,10 +2603,14 @@ def check_serial_sign_guard(ctx, f, rule="R-GRD"):
             continue
         if b.locals[0]["ty"] not in ("std::option::Option<repository::x509::Serial>",) or b.locals[1]["ty"] != X:
             continue
+        # rewrites its octets: a store into `self.0[..]`, or the octets handed out mutably (`self.0.iter_mut()`)
         writes = False
         for blk in b.blocks:
             for st in blk["stmts"]:
                 if st["s"] == "assign" and st["pl"]["l"] == 1 and any(p[0] in ("i", "ci") for p in st["pl"]["p"]):
+                    writes = True
+                if st["s"] == "assign" and st["rv"]["r"] in ("ref", "rawptr") and (st["rv"].get("mut") or st["rv"].get("kind") == "Mut") \
+                        and st["rv"]["pl"]["l"] == 1:
                     writes = True
         if not writes:
             continue
@@ -2608,7 +2621,7 @@ def check_serial_sign_guard(ctx, f, rule="R-GRD"):
         ctx.ob(rule, "%s:result-stays-positive" % short(name), ok,
                "%s returns Some only while the top bit of the first octet is clear (the serial is still a positive integer "
                "of at most 20 octets)" % short(name), where=b.loc, detail=None if ok else why(f, mp, name))
-    ctx.floor(rule, "octet-rewriting steps of Serial returning Option<Self>", n, 2)
+    ctx.floor(rule, "octet-rewriting steps of Serial returning Option<Self>", n, 1)
 
 
 def check_builder_slot_accumulates(ctx, f, rule, fns, field="res"):
